@@ -181,6 +181,12 @@ def events():
     add('InvokeMethod', MethodName=S('echo'), ObjectName=B1_OTHER, Params=['a', [['t', [S('A'), S('x')]]]])
     add('InvokeMethod', MethodName=S('Echo'), ObjectName=B1,
         Params=['a', [['param', 'a', 'string', {'value': S('viaparam')}], ['param', 'bo', 'boolean', {'value': ['b', False]}]]])
+    # CIMParameter objects whose declared type is not the one inferred from the Python value: the
+    # declared type must reach the server (both paths then agree, whatever the server answers)
+    add('InvokeMethod', MethodName=S('Echo'), ObjectName=B1,
+        Params=['a', [['param', 'a', 'char16', {'value': S('x')}]]])
+    add('InvokeMethod', MethodName=S('Echo'), ObjectName=B1,
+        Params=['a', [['param', 'u', 'uint16', {'value': ['a', [['i', 'uint16', 1]]], 'is_array': True}]]])
     add('InvokeMethod', MethodName=S('SEcho'), ObjectName=S('TST_Base'), Params=['a', [['t', [S('bo'), ['b', False]]]]])
     add('InvokeMethod', MethodName=S('SEcho'), ObjectName=['cpath', 'TST_Base', 'root/other', None], Params=['a', [['t', [S('bo'), ['b', True]]]]])
     add('InvokeMethod', MethodName=S('SEcho'), ObjectName=B1, Params=['a', [['t', [S('bo'), ['b', False]]]]])
